@@ -159,6 +159,10 @@ func genC32(t *rapid.T) c32Case {
 			o.Schema = &s
 		}
 		c.H = fixZT(gen.Histogram(o).Draw(t, "h"))
+		if rapid.IntRange(0, 11).Draw(t, "lowcount") == 7 {
+			// a count below what the buckets hold (Validate does not object): only the range laws apply
+			c.H.Count = gen.B(gen.F(c.H.Count) * 0.75)
+		}
 		b := []float64{genBound(t, "b0"), genBound(t, "b1"), genBound(t, "b2"), genBound(t, "b3")}
 		sort.Float64s(b)
 		c.L2, c.L1, c.U1, c.U2 = gen.B(b[0]), gen.B(b[1]), gen.B(b[2]), gen.B(b[3])
@@ -480,8 +484,11 @@ func runC32(c c32Case, r *ev.Rec) error {
 		return nil
 	}
 	consistent := !nanSum && math.Abs(total-h.Count) <= c32Tol*h.Count
+	if !nanSum && !consistent {
+		r.Class("count-inconsistent-with-buckets")
+	}
 	for _, f := range []float64{f1, f2, fall} {
-		if math.IsNaN(f) || f < -c32Tol || (consistent && f > 1+c32Tol) {
+		if math.IsNaN(f) || f < -c32Tol || f > 1+c32Tol {
 			return fracFail("fraction %v outside [0,1] (bounds [%v,%v] / [%v,%v])\n h %v", f, l1, u1, l2, u2, h0)
 		}
 	}
